@@ -107,6 +107,38 @@ class EpisodeMonitor:
 
     def fail(self, pid, msg):
         self.report(pid, self.step, msg)
+        # C19: an attribute that is not honoured "as written" is also a failure of the attribute surface
+        if pid in ("C10", "C11", "C12"):
+            self.report("C19", self.step, {"C10": "cache_if", "C11": "invalidate_on", "C12": "tags/events/dependencies"}[pid]
+                        + " does not take effect as written: " + msg)
+
+    def attrs_effect(self, op, s, inst, key, o, prev, dumps):
+        """C19: limit / ttl written on the attribute govern the generated function's own cache instance"""
+        d = dumps.get(inst)
+        if d is not None and s["limit"] is not None and s["limit"] > 0 and len(d[0]) > s["limit"]:
+            self.fail("C19", f"{op}: limit = {s['limit']} is written on the function, its cache holds {len(d[0])} entries afterwards")
+        before = prev.get(inst) if prev is not None else None
+        if before and s["ttl"] is not None and key in before[0] and o.get("execs") is not None and o["kind"] == "call":
+            age = before[0][key][2]
+            if age >= 1000 * s["ttl"]:
+                self.ev("c19-ttl-expired-call")
+                if o["execs"] == 0:
+                    self.fail("C19", f"{op}: ttl = {s['ttl']} is written on the function, an entry of age {age} ms was served")
+            elif age + 2000 <= 1000 * s["ttl"] and not s["inv_on"]:
+                self.ev("c19-ttl-live-call")
+                if o["execs"] != 0:
+                    self.fail("C19", f"{op}: ttl = {s['ttl']} is written on the function, a cached entry of age {age} ms was not served")
+
+    def async_consistent(self, op, inst, dumps):
+        """C20: an async cache is consistent at every point a call can be suspended, dropped or resumed"""
+        d = dumps.get(inst)
+        if d is None:
+            return
+        orphans = [k for k in d[1] if k not in d[0]]
+        dups = len(d[1]) != len(set(d[1]))
+        if orphans or dups:
+            self.fail("C20", f"{op}: the cache is left inconsistent at the suspension point: order slots without entry {orphans[:3]}"
+                      + (", duplicate slots" if dups else ""))
 
     def registered(self, i):
         return i in self.called and not self.spec[i]["thread"]
@@ -202,6 +234,9 @@ class EpisodeMonitor:
                 if (not stored) and d is not None and key in d[0] and d[0][key][0] == o["would"] and not o["check"]:
                     pid = "C10" if s["cache_if"] else "C09"
                     self.fail(pid, f"call {op}: a result that must not be cached (rejected / Err) is in the cache afterwards")
+            self.attrs_effect(op, s, inst, key, o, prev, dumps)
+            if s["is_async"]:
+                self.async_consistent(op, inst, dumps)
             # C14: a thread-scope call touches only its own thread's instance
             if prev is not None:
                 for lbl, d in dumps.items():
@@ -229,6 +264,9 @@ class EpisodeMonitor:
             hit_lookup = (o["kind"] == "call" and o["execs"] == 0) or len(o.get("check", [])) > 0
             h, m_ = self.stats.get(s["name"], (0, 0))
             self.stats[s["name"]] = (h + 1, m_) if hit_lookup else (h, m_ + 1)
+            self.async_consistent(op, inst, dumps)
+            if o["kind"] == "call":
+                self.attrs_effect(op, s, inst, o["key"], o, prev, dumps)
             if o["kind"] == "suspended":
                 self.ev("c20-suspended")
                 # the value is unique to this call only if it embeds the call's counter (not e.g. `None`)
@@ -256,6 +294,7 @@ class EpisodeMonitor:
             if cid in self.suspended:
                 self.ev("c20-dropped")
                 fi, key, would = self.suspended.pop(cid)
+                self.async_consistent(op, f"{fi}:g", dumps)
                 if prev is not None and prev != dumps:
                     self.fail("C20", f"{op}: dropping the suspended call changed the cache contents")
                 if not self.det and would is not None:
@@ -275,6 +314,8 @@ class EpisodeMonitor:
                 if s["cache_if"] and len(o.get("pred", [])) != 1:
                     self.fail("C10", f"{op}: cache_if consulted {len(o.get('pred', []))} times for the resumed body execution")
                 inst = f"{fi}:g"
+                self.async_consistent(op, inst, dumps)
+                self.attrs_effect(op, s, inst, key, o, prev, dumps)
                 if prev is not None:
                     for lbl, d in dumps.items():
                         if lbl != inst and prev.get(lbl) != d:
